@@ -153,9 +153,11 @@ Fixpoint c18_follow (disc : bool) (kept : N) (lib : N) (root : ref) (U : list bl
       | None => false
       | Some mon' =>
           let seen' := b :: seen in
-          (* the first finality announcement of a discovery-mode stream establishes the LIB through SetLIB,
-             which does not purge: it is not a "LIB move" *)
+          (* a LIB MOVE = a finality announcement after which the last final block is another ref than before
+             (the root announcement of includeInitialLIB moves nothing); the first finality announcement of a
+             discovery-mode stream establishes the LIB through SetLIB, which does not purge: not a move either *)
           let moved := existsb (fun e => match estep e with SIrr => true | _ => false end) (o_events o)
+                       && negb (ref_eqb (fm_last mon) (fm_last mon'))
                        && negb (disc && negb (fm_any mon)) in
           let lastnew' := last_new lastnew (o_events o) in
           (* head information = last block delivered as New *)
